@@ -11,8 +11,13 @@ Open Scope N_scope.
       9  total transaction size               C05_size_refuted        (open finding R13b)
      10  at most max_side_blocks side blocks  C05_nsides_refuted      (validation never counts them; the wire decoder
                                                                        does: C05_nsides_decoder)
-     11  side blocks pairwise distinct        C05_distinct_440_refuted, at height 440 only: the code skips its duplicate
-                                              tests at that height (every network); proved for every other height.
+     11  side blocks pairwise distinct        C05_distinct_440_mainnet_refuted, BY DESIGN and only at height 440 of a
+                                              configuration whose checkpoints cover that height (mainnet's historical
+                                              block 440): the code skips its duplicate tests there.  Until /repo 7c12eb4
+                                              it skipped them at height 440 of EVERY network (finding R22, found by the
+                                              former witness of this file, replayed by the ledger scenario h440, fixed);
+                                              C05_twice_440_verifnet_rejected is the regression.  Proved everywhere else,
+                                              and at every height of a checkpoint-free configuration.
    Every other clause (1-6, 8, 12, 13, 14) is proved: C05_accepted_wellformed. *)
 Definition C05_full : Prop := forall cfg genesis_addr team_key n b now n' amb,
   deliver cfg genesis_addr team_key n b now = (n', Accepted, amb) ->
@@ -22,7 +27,7 @@ Definition C05_full : Prop := forall cfg genesis_addr team_key n b now n' amb,
    was not stored before, and satisfies: proof of work at its declared difficulty outside the checkpointed range (1),
    difficulty = retarget of its parent (2), height = parent + 1 (3), parent time <= time <= now + future limit (4),
    cumulative difficulty = parent's + its own contribution (5), version required at its height (6), no merge-mining
-   duplicates (8), side blocks pairwise distinct (11; not at height 440, see above), no side block is the commitment of
+   duplicates (8), side blocks pairwise distinct (11; not at height 440 under a checkpoint, see above), no side block is the commitment of
    or listed by one of the three predecessors (12), every side block shares an ancestor with the block (13), every side
    block carries at least 2/3 of the block's work (14), difficulty >= minimum.
    Hypotheses: the clock, the difficulty and the parent's height are far from the uint64/uint128 limits; for clause 11
@@ -37,7 +42,7 @@ Theorem C05_accepted_wellformed : forall cfg genesis_addr team_key n b now n' am
   exists p, get_block n (prev_hash b) = Some p /\ get_block n (b_hash b) = None /\
     wf_pow cfg b = true /\ wf_diff cfg n p b = true /\ wf_height p b = true /\ wf_time cfg p b now = true /\
     wf_cd p b = true /\ wf_version cfg b = true /\ wf_chains cfg b = true /\
-    (b_height b <> 440 -> commits_coherent (b_sides b) -> wf_distinct b = true) /\
+    ((b_height b <> 440 \/ is_secured cfg (b_height b) = false) -> commits_coherent (b_sides b) -> wf_distinct b = true) /\
     wf_unref n b = true /\ wf_shared b = true /\ wf_sidework cfg b = true /\
     min_difficulty cfg <= b_diff b.
 Proof. exact accepted_wellformed. Qed.
@@ -48,7 +53,7 @@ Theorem C05_accepted_wellformed_code : forall cfg genesis_addr team_key n b now 
   deliver cfg genesis_addr team_key n b now = (n', Accepted, amb) ->
   now + future_time_limit cfg * 1000 < two64 -> b_diff b * 2 < two128 ->
   (forall p, get_block n (prev_hash b) = Some p -> b_height p + 1 < two64) ->
-  b_height b <> 440 -> commits_coherent (b_sides b) ->
+  (b_height b <> 440 \/ is_secured cfg (b_height b) = false) -> commits_coherent (b_sides b) ->
   let c := wellformed cfg n b now in c = 0 \/ c = 7 \/ c = 9 \/ c = 10.
 Proof. exact accepted_wellformed_code. Qed.
 Print Assumptions C05_accepted_wellformed_code.
@@ -58,7 +63,7 @@ Theorem C05_full_modulo_7_9_10 : forall cfg genesis_addr team_key n b now n' amb
   deliver cfg genesis_addr team_key n b now = (n', Accepted, amb) ->
   now + future_time_limit cfg * 1000 < two64 -> b_diff b * 2 < two128 ->
   (forall p, get_block n (prev_hash b) = Some p -> b_height p + 1 < two64) ->
-  b_height b <> 440 -> commits_coherent (b_sides b) ->
+  (b_height b <> 440 \/ is_secured cfg (b_height b) = false) -> commits_coherent (b_sides b) ->
   get_block n (prev_hash b) = Some p -> wf_anc p b = true -> wf_size cfg b = true -> wf_nsides cfg b = true ->
   wellformed cfg n b now = 0.
 Proof. exact accepted_wellformed_modulo. Qed.
@@ -77,16 +82,47 @@ Print Assumptions C05_side_blocks_share_ancestor.
 
 Theorem C05_side_blocks_distinct : forall cfg genesis_addr team_key n b now n' amb,
   deliver cfg genesis_addr team_key n b now = (n', Accepted, amb) ->
-  b_height b <> 440 -> commits_coherent (b_sides b) -> wf_distinct b = true.
+  (b_height b <> 440 \/ is_secured cfg (b_height b) = false) -> commits_coherent (b_sides b) -> wf_distinct b = true.
 Proof. exact accepted_distinct. Qed.
 Print Assumptions C05_side_blocks_distinct.
 
 (* the code's own duplicate rule (pairwise different (BaseHash, Nonce, NonceExtra)), no coherence needed *)
 Theorem C05_side_blocks_dup_free : forall cfg genesis_addr team_key n b now n' amb,
   deliver cfg genesis_addr team_key n b now = (n', Accepted, amb) ->
-  b_height b <> 440 -> sides_dup_free (b_sides b) = true.
+  (b_height b <> 440 \/ is_secured cfg (b_height b) = false) -> sides_dup_free (b_sides b) = true.
 Proof. exact accepted_dup_free. Qed.
 Print Assumptions C05_side_blocks_dup_free.
+
+(* configurations without checkpoints (testnet, unittest, verifnet): no exempt height at all *)
+Theorem C05_side_blocks_distinct_no_checkpoints : forall cfg genesis_addr team_key, cp_max cfg = 0 ->
+  forall n b now n' amb,
+  deliver cfg genesis_addr team_key n b now = (n', Accepted, amb) ->
+  commits_coherent (b_sides b) -> wf_distinct b = true.
+Proof. exact accepted_distinct_no_cp. Qed.
+Print Assumptions C05_side_blocks_distinct_no_checkpoints.
+
+Theorem C05_side_blocks_dup_free_no_checkpoints : forall cfg genesis_addr team_key, cp_max cfg = 0 ->
+  forall n b now n' amb,
+  deliver cfg genesis_addr team_key n b now = (n', Accepted, amb) -> sides_dup_free (b_sides b) = true.
+Proof. exact accepted_dup_free_no_cp. Qed.
+Print Assumptions C05_side_blocks_dup_free_no_checkpoints.
+
+Theorem C05_accepted_wellformed_code_no_checkpoints : forall cfg genesis_addr team_key, cp_max cfg = 0 ->
+  forall n b now n' amb,
+  deliver cfg genesis_addr team_key n b now = (n', Accepted, amb) ->
+  now + future_time_limit cfg * 1000 < two64 -> b_diff b * 2 < two128 ->
+  (forall p, get_block n (prev_hash b) = Some p -> b_height p + 1 < two64) ->
+  commits_coherent (b_sides b) ->
+  let c := wellformed cfg n b now in c = 0 \/ c = 7 \/ c = 9 \/ c = 10.
+Proof. exact accepted_wellformed_code_no_cp. Qed.
+Print Assumptions C05_accepted_wellformed_code_no_checkpoints.
+
+Theorem C05_no_checkpoints_testnet : cp_max cfg_testnet = 0. Proof. reflexivity. Qed.
+Print Assumptions C05_no_checkpoints_testnet.
+Theorem C05_no_checkpoints_unittest : cp_max cfg_unittest = 0. Proof. reflexivity. Qed.
+Print Assumptions C05_no_checkpoints_unittest.
+Theorem C05_no_checkpoints_verifnet : cp_max cfg_verifnet = 0. Proof. reflexivity. Qed.
+Print Assumptions C05_no_checkpoints_verifnet.
 
 (* ---------------- refuted clauses: accepted blocks on reachable nodes of the verification network ---------------- *)
 (* clause 7, "ancestor list equal to the hashes of its actual predecessors" (open finding R13a) *)
@@ -130,17 +166,31 @@ Theorem C05_nsides_decoder : forall cfg, CodecBlock.cfg_ok_block cfg = true -> f
 Proof. exact WellFormedDecoder.decoded_full_block_nsides. Qed.
 Print Assumptions C05_nsides_decoder.
 
-(* clause 11 at the exempt height: after 439 blocks, block [w2_twice 440] lists one side block twice and is accepted
-   (on the verification network: the exemption is not tied to mainnet); one height lower it is refused *)
-Theorem C05_distinct_440_refuted :
+(* clause 11 at height 440, regression of finding R22 (fixed in /repo 7c12eb4): on the verification network, after 439
+   blocks, the block [w2_twice 440] that lists one side block twice is refused by the duplicate test and the node is
+   unchanged; the same block with two different side blocks is accepted and well formed *)
+Theorem C05_twice_440_verifnet_rejected :
+  node0 cfg_verifnet 7 wit_g = Ok w2_n0 /\
+  let n := run cfg_verifnet 7 0 w2_n0 (w2_chain 439) in
+  top_h n = 439 /\ b_height (w2_twice 440) = 440 /\ wf_distinct (w2_twice 440) = false /\
+  deliver cfg_verifnet 7 0 n (w2_twice 440) 6600000 = (n, Rejected 607, false) /\
+  snd (fst (deliver cfg_verifnet 7 0 n (w2_two_sides 440) 6600000)) = Accepted /\
+  wellformed cfg_verifnet n (w2_two_sides 440) 6600000 = 0.
+Proof. exact twice_440_verifnet_rejected. Qed.
+Print Assumptions C05_twice_440_verifnet_rejected.
+
+(* clause 11 at height 440 of mainnet, BY DESIGN (the exemption of the historical block 440, which the checkpoints pin):
+   after 439 blocks matching the checkpoints of their heights, [w2m_twice 440] lists one side block twice and is
+   accepted; one height lower it is refused *)
+Theorem C05_distinct_440_mainnet_refuted :
   exists n b now n' amb,
-    node0 cfg_verifnet 7 wit_g = Ok w2_n0 /\ n = run cfg_verifnet 7 0 w2_n0 (w2_chain 439) /\
-    deliver cfg_verifnet 7 0 n b now = (n', Accepted, amb) /\ get_block n (b_hash b) = None /\
-    b_height b = 440 /\ commits_coherent (b_sides b) /\
-    wf_distinct b = false /\ sides_dup_free (b_sides b) = false /\ wellformed cfg_verifnet n b now = 11 /\
-    snd (fst (deliver cfg_verifnet 7 0 (run cfg_verifnet 7 0 w2_n0 (w2_chain 438)) (w2_twice 439) now)) = Rejected 607.
-Proof. exact accepted_distinct_440_refuted. Qed.
-Print Assumptions C05_distinct_440_refuted.
+    node0 cfg_mainnet 7 w2m_g = Ok w2m_n0 /\ n = run cfg_mainnet 7 0 w2m_n0 (w2m_chain 439) /\
+    deliver cfg_mainnet 7 0 n b now = (n', Accepted, amb) /\ get_block n (b_hash b) = None /\
+    b_height b = 440 /\ is_secured cfg_mainnet 440 = true /\ commits_coherent (b_sides b) /\
+    wf_distinct b = false /\ sides_dup_free (b_sides b) = false /\ wellformed cfg_mainnet n b now = 11 /\
+    snd (fst (deliver cfg_mainnet 7 0 (run cfg_mainnet 7 0 w2m_n0 (w2m_chain 438)) (w2m_twice 439) now)) = Rejected 607.
+Proof. exact accepted_distinct_440_mainnet_refuted. Qed.
+Print Assumptions C05_distinct_440_mainnet_refuted.
 
 (* the coherence hypothesis of clause 11 cannot be dropped in the symbolic model (model artefact, not a code finding) *)
 Theorem C05_distinct_needs_coherence :
